@@ -3647,7 +3647,12 @@ impl VerylWalker for Emitter {
                 }
             }
         }
-        for x in &arg.expression02_list {
+        for (i, x) in arg.expression02_list.iter().enumerate() {
+            // Prefix operators written back to back can lex as one token
+            // (`& &a` -> `&&a`, `~ ^a` -> `~^a`): keep them apart.
+            if i > 0 {
+                self.space(1);
+            }
             self.expression02_op(&x.expression02_op);
         }
         self.factor(&arg.factor);
